@@ -130,6 +130,17 @@ CLAIMED = {
             "trusted: TLC, the transcription of the documented definitions; values containing functions and patches with hidden "
             "fields are undecided; quick tier replays a seeded sample of the chains",
             "DESIGN.md §4 C13"),
+    "C09": ("TLA+ spec Numbers (order on ranks with trichotomy/derived-operator laws; 64-bit two's-complement bit vectors for "
+            "& | ^ << >> with safe-range and overflow tests) model-checked by TLC and replayed on boundary doubles; "
+            "arithmetic/math-function executions trace-validated against Trace_Numbers with an IEEE/libm oracle",
+            "TLC enumerates all pairs and structured triples of ranks of a boundary-dense sorted list of doubles (zeros, subnormals, "
+            "one-ulp neighbours, +-2^53 and neighbours, +-max) and all bit-vector operand pairs; every comparison operator, "
+            "std.equals/primitiveEquals/__compare, sort, set, uniq, setMember, min/max(Array) and every bitwise operator must agree "
+            "with the model; every + - * / % and math-function execution over the boundary set must be an error iff the IEEE "
+            "result is not finite and otherwise return the oracle's bits (<=1 ulp for transcendental functions)",
+            "trusted: TLC, IEEE-754 hardware arithmetic and the platform libm via python floats/math as the value oracle; shift "
+            "counts >= 64 are undecided; fractional operands of bitwise operators are truncated",
+            "DESIGN.md §4 C09"),
 }
 
 NOT_YET = "specification module and binding not built yet in this round; see DESIGN.md §4 for the planned model"
